@@ -462,6 +462,7 @@ func (e *Engine) verifyFunc(fn *ssa.Function, con *Contract) *FnCtx {
 	c.quantHeavy = con != nil && con.Arith2 == "heapwf"
 	c.usesLock = con != nil && con.Locked
 	c.cellsMode = con != nil && con.Cells
+	c.provMode = con != nil && con.Prov
 	c.useLines = con != nil && con.Lines
 	c.checked = con != nil && con.Arith == "checked"
 	if fn.Blocks == nil {
@@ -1341,6 +1342,47 @@ func (e *Engine) scanMapUpdates(typeNames []string) []string {
 						continue
 					}
 					bad = append(bad, fmt.Sprintf("%s writes a %s at %s", e.fnKey(fn), mu.Map.Type(), e.posOf(in)))
+				}
+			}
+		}
+	}
+	sort.Strings(bad)
+	return bad
+}
+
+// scanAnyLists: the only place of the module that stores into a []any / [N]any is the allowed functions
+// (object.GetList's singleton list); JSON lists are otherwise exactly what the decoder produced.
+func (e *Engine) scanAnyLists(allow []string) []string {
+	var bad []string
+	ok := map[string]bool{}
+	for _, a := range allow {
+		ok[a] = true
+	}
+	for fn := range e.allFns {
+		if !e.inRepo(fn) || ok[e.fnKey(fn)] {
+			continue
+		}
+		for _, b := range fn.Blocks {
+			for _, in := range b.Instrs {
+				st, isStore := in.(*ssa.Store)
+				if !isStore {
+					continue
+				}
+				ia, isIA := st.Addr.(*ssa.IndexAddr)
+				if !isIA {
+					continue
+				}
+				var et types.Type
+				switch u := ia.X.Type().Underlying().(type) {
+				case *types.Slice:
+					et = u.Elem()
+				case *types.Pointer:
+					if at, ok := u.Elem().Underlying().(*types.Array); ok {
+						et = at.Elem()
+					}
+				}
+				if it, isI := et.(*types.Interface); et != nil && isI && it.NumMethods() == 0 {
+					bad = append(bad, fmt.Sprintf("%s stores into a list of `any` at %s", e.fnKey(fn), e.posOf(in)))
 				}
 			}
 		}
